@@ -104,7 +104,11 @@ class RecT(_DT):
     """object of a class under contract: a record of its fields (value semantics; aliasing of objects is out of the subset)"""
     mutable = True
     def __init__(self, name, fields): self.name = name; self.fs = dict(fields)     # name -> Ty (ordered)
-    def key(self): return f"Rec<{self.name}>"
+    def key(self):
+        # the same class may be modelled with different field types by different contract modules run in one process: the z3 datatype is keyed by the field signature too
+        import hashlib
+        sig = hashlib.md5(repr([(f, repr(t)) for f, t in self.fs.items()]).encode()).hexdigest()[:6]
+        return f"Rec<{self.name}>.{sig}"
     def fields(self): return [(_san(f), t.sort()) for f, t in self.fs.items()]
     def getf(self, z, f): return self.get(z, _san(f))
     def setf(self, z, f, v): return self.mk(*[(v if g == f else self.getf(z, g)) for g in self.fs])
